@@ -46,15 +46,56 @@ _INSTALLED = [False]
 TOOL = 3
 
 
-def _scan(code):
+SHARED_CONTAINERS = []   # [(description, name, object)]: module-level / class-level mutable containers of the four modules
+MUTABLE = (list, dict, set, bytearray)
+
+
+def _find_shared_containers():
+    import ecdsa.ellipticcurve, ecdsa.numbertheory, ecdsa.keys, ecdsa.ecdsa
+    out = []
+    for mod in (ecdsa.ellipticcurve, ecdsa.numbertheory, ecdsa.keys, ecdsa.ecdsa):
+        for n, v in vars(mod).items():
+            if n.startswith("__") and n.endswith("__"):
+                continue
+            if isinstance(v, MUTABLE):
+                out.append(("%s.%s" % (mod.__name__, n), n, v))
+            if isinstance(v, type) and v.__module__ == mod.__name__:
+                for an, av in vars(v).items():
+                    if an.startswith("__") and an.endswith("__"):
+                        continue
+                    if isinstance(av, MUTABLE):
+                        out.append(("%s.%s.%s" % (mod.__name__, v.__name__, an), an, av))
+    return out
+
+
+def _scan(code, shared_names):
+    """offset -> access descriptor:
+      ("R"/"W", receiver local, field)   load / store of __coords / __precompute / __dict__ of the object in that local
+      ("G", name)                         load of a reference to a module-level / class-level mutable container
+      ("A", local, kind)                  load of a local that was bound to such a container (kind "global") or to the
+                                          value of __coords / __precompute (kind "field": a yield point only when that
+                                          value is a mutable container, i.e. when it can be updated in place)"""
     m = {}
+    ins_list = list(dis.get_instructions(code))
+    alias = {}
+    for i, ins in enumerate(ins_list):
+        nxt = ins_list[i + 1] if i + 1 < len(ins_list) else None
+        if ins.opname in ("LOAD_ATTR", "LOAD_GLOBAL", "LOAD_NAME") and nxt is not None and nxt.opname == "STORE_FAST":
+            if ins.argval in shared_names:
+                alias[nxt.argval] = "global"
+            elif ins.opname == "LOAD_ATTR" and ins.argval in FIELDS and FIELDS[ins.argval] != "dict":
+                alias[nxt.argval] = "field"
     prev = None
-    for ins in dis.get_instructions(code):
+    for ins in ins_list:
         if ins.opname in ("LOAD_ATTR", "STORE_ATTR") and ins.argval in FIELDS:
             recv = prev.argval if prev is not None and prev.opname.startswith("LOAD_FAST") else None
             if FIELDS[ins.argval] == "dict" and ins.opname == "STORE_ATTR":
                 recv = None
             m[ins.offset] = ("W" if ins.opname == "STORE_ATTR" else "R", recv, FIELDS[ins.argval])
+        elif ins.opname in ("LOAD_ATTR", "LOAD_GLOBAL", "LOAD_NAME", "STORE_GLOBAL", "STORE_ATTR") and ins.argval in shared_names:
+            m[ins.offset] = ("G", ins.argval, None)
+        elif ins.opname.startswith("LOAD_FAST") and ins.argval in alias:
+            m[ins.offset] = ("A", ins.argval, alias[ins.argval])
         prev = ins
     return m
 
@@ -68,6 +109,24 @@ def _callback(code, offset):
         return None
     kind, recv, field = acc
     if recv is None:
+        return None
+    if kind == "G":
+        run.sched.yield_point(("G", recv, offset))
+        return None
+    if kind == "A":
+        obj = sys._getframe(1).f_locals.get(recv)
+        if field == "global":
+            if any(obj is c for _, _, c in SHARED_CONTAINERS):
+                run.sched.yield_point(("G", recv, offset))
+            return None
+        if isinstance(obj, MUTABLE):
+            for k, o in enumerate(run.objs):
+                if obj is o._PointJacobi__coords:
+                    run.sched.yield_point(("R", k, "coords"))
+                    return None
+                if obj is o._PointJacobi__precompute and len(obj) > 0:
+                    run.sched.yield_point(("R", k, "pre"))
+                    return None
         return None
     obj = sys._getframe(1).f_locals.get(recv)
     k = run.ids.get(id(obj))
@@ -84,21 +143,43 @@ def _callback(code, offset):
     return None
 
 
+def _all_codes(code):
+    yield code
+    for c in code.co_consts:
+        if isinstance(c, type(code)):
+            yield from _all_codes(c)
+
+
 def install():
     if _INSTALLED[0]:
         return
-    from ecdsa import ellipticcurve
+    import ecdsa.ellipticcurve, ecdsa.numbertheory, ecdsa.keys, ecdsa.ecdsa
     mon = sys.monitoring
     mon.use_tool_id(TOOL, "verif-c18")
     mon.register_callback(TOOL, mon.events.INSTRUCTION, _callback)
-    for name, fn in vars(ellipticcurve.PointJacobi).items():
-        f = fn.__func__ if isinstance(fn, (staticmethod, classmethod)) else fn
-        code = getattr(f, "__code__", None)
-        if code is None:
-            continue
-        _ACCESS[code] = _scan(code)
-        if _ACCESS[code]:
-            mon.set_local_events(TOOL, code, mon.events.INSTRUCTION)
+    SHARED_CONTAINERS[:] = _find_shared_containers()
+    save_shared()
+    names = {n for _, n, _ in SHARED_CONTAINERS}
+    seen = set()
+    for mod in (ecdsa.ellipticcurve, ecdsa.numbertheory, ecdsa.keys, ecdsa.ecdsa):
+        fns = []
+        for v in vars(mod).values():
+            if isinstance(v, type) and v.__module__ == mod.__name__:
+                for fn in vars(v).values():
+                    f = fn.__func__ if isinstance(fn, (staticmethod, classmethod)) else fn
+                    f = getattr(f, "fget", f) if isinstance(f, property) else f
+                    if getattr(f, "__code__", None) is not None:
+                        fns.append(f.__code__)
+            elif getattr(v, "__code__", None) is not None and getattr(v, "__module__", None) == mod.__name__:
+                fns.append(v.__code__)
+        for top in fns:
+            for code in _all_codes(top):
+                if code in seen:
+                    continue
+                seen.add(code)
+                _ACCESS[code] = _scan(code, names)
+                if _ACCESS[code]:
+                    mon.set_local_events(TOOL, code, mon.events.INSTRUCTION)
     _INSTALLED[0] = True
 
 
@@ -256,6 +337,12 @@ def operations(toy):
         "mul_add_neg11": (lambda o: o[0].mul_add(1, o[3], 1), "mul_add:0:1:3:1"),
         "mul_add_neg21": (lambda o: o[0].mul_add(2, o[3], 1), "mul_add:0:2:3:1"),
         "mul_add_neg23": (lambda o: o[0].mul_add(2, o[3], 3), "mul_add:0:2:3:3"),
+        # operations of a SECOND thread that shares no point object with x / y / mul / mul_add_pr of the first one
+        "mul_add_pr": (lambda o: o[0].mul_add(3, o[2], 4), "mul_add:0:3:2:4"),
+        "x1": (lambda o: o[1].x(), "x:1"),
+        "y1": (lambda o: o[1].y(), "y:1"),
+        "mul1": (lambda o: o[1] * 7, "mul:1:7"),
+        "mul_add_qs": (lambda o: o[1].mul_add(2, o[3], 3), "mul_add:1:2:3:3"),
         "pickle": (lambda o: pickle.loads(pickle.dumps(o[0])), None),
         "getstate": (lambda o: o[0].__getstate__(), "getstate:0"),
         "verify": (_verify_op(toy), None),
@@ -275,6 +362,29 @@ def show_table(t):
     if not t:
         return "T0"
     return "T%d:%d:%d:%d:%d" % (len(t), t[0][0], t[0][1], t[-1][0], t[-1][1])
+
+
+_SAVED = []
+
+
+def save_shared():
+    import copy
+    _SAVED[:] = [copy.deepcopy(c) for _, _, c in SHARED_CONTAINERS]
+
+
+def reset_shared():
+    """put the module-level / class-level containers back into their import-time state (runs must be reproducible)"""
+    import copy
+    for (_, _, c), v in zip(SHARED_CONTAINERS, _SAVED):
+        v = copy.deepcopy(v)
+        if isinstance(c, (list, bytearray)):
+            c[:] = v
+        elif isinstance(c, (dict, set)):
+            c.clear(); c.update(v)
+
+
+def shared_repr():
+    return repr([c for _, _, c in SHARED_CONTAINERS]) if SHARED_CONTAINERS else ""
 
 
 def heap_str(objs):
@@ -353,6 +463,7 @@ class Exec(Run):
 
     def go(self, chooser):
         install()
+        reset_shared()
         objs = self.objs
         self.sched = Sched([(lambda f=f: f(objs)) for f in self.fns], lambda s, i: chooser(self, i))
         Run.cur = self
@@ -380,11 +491,13 @@ class Exec(Run):
         p = self.sched.pending[j]
         if p is not None and p[0] == "R":
             v = self.cell(p[1], p[2])
-            self.reads[j].append((p[1], p[2], v if p[2] == "coords" else len(v)))
+            self.reads[j].append((p[1], p[2], tuple(v) if p[2] == "coords" else len(v)))
+        elif p is not None and p[0] == "G":
+            self.reads[j].append(("G", p[1], p[2], shared_repr()))
 
     def key(self):
         s = self.sched
-        return (heap_str(self.objs), tuple(s.pending), tuple(s.done), tuple(tuple(r) for r in self.reads))
+        return (heap_str(self.objs), shared_repr(), tuple(s.pending), tuple(s.done), tuple(tuple(r) for r in self.reads))
 
     def runnable(self):
         return [i for i in range(len(self.fns)) if not self.sched.done[i]]
@@ -425,7 +538,9 @@ def sequential(scn, opnames):
     iskey = isinstance(scn, KeyScenario)
     ops = None if iskey else operations(scn.toy)
     acc = [set() for _ in opnames]
+    install()
     for order in itertools.permutations(range(len(opnames))):
+        reset_shared()
         objs = scn.make()
         kops = key_operations(scn) if iskey else None
         for i in order:
@@ -589,6 +704,11 @@ def _all_results(ctx):
         for variant in VARIANTS:
             for (a, b) in pairs(ctx):
                 tasks.append((ti, variant, (a, b), 400 if ctx.quick else 3000, None, True))
+    # thread pairs that share NO point object (only module-level / class-level state could couple them)
+    for ti in toys:
+        for a in ("x", "y", "mul", "mul_add_pr", "to_affine", "scale"):
+            for b in ("x1", "y1", "mul1", "mul_add_qs"):
+                tasks.append((ti, "plain", (a, b), 400 if ctx.quick else 3000, None, True))
     for ti in toys:
         for i, a in enumerate(KEY_OPS):
             for b in KEY_OPS[i:]:
